@@ -47,6 +47,7 @@ type env struct {
 	state    string
 	sessions []string
 	w        *vh.World
+	reopen   func() // directory store: a new server on the same directory (cold caches)
 }
 
 func (e *env) viol(sig, detail string, rq vh.Req, rs vh.Resp) {
@@ -341,6 +342,11 @@ func (e *env) directed(rng *rand.Rand) {
 		// an unsatisfiable byte range on existing content is a client mistake too
 		cases = append(cases, dc{"unsatisfiable-range", vh.Req{Method: "GET", URL: "/v2/r/blobs/" + presentBlob, H: map[string]string{"Range": "bytes=99999999-"}}, []string{"SIZE_INVALID", "BLOB_UNKNOWN", "UNSUPPORTED"}, any})
 	}
+	// a session that remembers a digest (mount fall-back) completed under another, correct digest: a client matter
+	if ms := vh.Do(e.srv, vh.Req{Method: "POST", URL: "/v2/r/blobs/uploads/?mount=" + absentD + "&from=other"}); ms.Status == 202 && ms.H.Get("Location") != "" {
+		body := []byte(fmt.Sprintf("other content %d", e.idx))
+		cases = append(cases, dc{"mount-fallback-other-digest", vh.Req{Method: "PUT", URL: ms.H.Get("Location") + "&digest=" + vh.DigestOf("sha256", body), Body: body}, []string{"BLOB_UPLOAD_INVALID", "DIGEST_INVALID"}, any})
+	}
 	// a tag that points to an index whose content was removed through the blob API, read with an Accept list that
 	// needs negotiation: still a client-visible "not found", never a server error
 	for _, mm := range u.Mans {
@@ -386,6 +392,47 @@ func (e *env) directed(rng *rand.Rand) {
 			}
 		}
 	}
+	// paged referrers: walk the Link chain to learn the answer's digest and the number of pages, then ask for pages
+	// around the end with a cold cache key (another artifactType filter) and with the right and a wrong cache digest
+	for _, sj := range u.Subjects {
+		descs, pages, _, _, _ := e.w.WalkReferrers("r", sj, "")
+		if pages < 2 || len(descs) == 0 {
+			continue
+		}
+		rs := vh.Do(e.srv, vh.Req{Method: "GET", URL: "/v2/r/referrers/" + sj})
+		link := rs.H.Get("Link")
+		ci := strings.Index(link, "cache=")
+		if ci < 0 {
+			continue
+		}
+		cache := link[ci+6:]
+		if j := strings.IndexAny(cache, "&>"); j >= 0 {
+			cache = cache[:j]
+		}
+		if e.kind == vh.Dir {
+			// every page number around the end against a server whose page cache is cold
+			for pg := 0; pg <= pages+2; pg++ {
+				e.reopen()
+				rq := vh.Req{Method: "GET", URL: fmt.Sprintf("/v2/r/referrers/%s?cache=%s&page=%d", sj, cache, pg)}
+				e.observe(rq, vh.Do(e.srv, rq), "", "directed:referrers-page-bounds-cold")
+				e.r.Count("referrer_page_bound_probes_cold", 1)
+			}
+		}
+		for _, pg := range []int{pages - 1, pages, pages + 1, pages + 2, 1 << 30} {
+			for _, flt := range []string{"", "application/x.a", "application/x.b", fmt.Sprintf("application/x.cold%d", e.idx)} {
+				for _, cd := range []string{cache, "sha256%3A" + strings.Repeat("0", 64)} {
+					q := fmt.Sprintf("/v2/r/referrers/%s?cache=%s&page=%d", sj, cd, pg)
+					if flt != "" {
+						q += "&artifactType=" + flt
+					}
+					rq := vh.Req{Method: "GET", URL: q}
+					e.observe(rq, vh.Do(e.srv, rq), "", "directed:referrers-page-bounds")
+					e.r.Count("referrer_page_bound_probes", 1)
+				}
+			}
+		}
+		break
+	}
 }
 
 func batch(r *vh.Run, i int, nreq int) {
@@ -401,10 +448,19 @@ func batch(r *vh.Run, i int, nreq int) {
 	c.API.Manifest.Limit = 60000
 	c.API.Referrer.Limit = 700
 	srv := vh.New(c)
-	defer srv.Close()
 	u := vh.GenUniverse(rng, vh.UOpts{Algs: true, Docker: true, NArtifact: 7, Tag: fmt.Sprint(i)})
 	w := vh.NewWorld(r, srv, u, kind, "r", "r/n", "other")
 	e := &env{r: r, idx: i, srv: srv, kind: kind, w: w}
+	defer func() { _ = e.srv.Close() }()
+	e.reopen = func() {
+		if kind != vh.Dir {
+			return
+		}
+		_ = e.srv.Close()
+		e.srv = vh.New(c)
+		e.w.H = e.srv
+		e.sessions = nil
+	}
 	e.state = []string{"empty", "populated", "open-sessions", "paged-referrers"}[i%4]
 	if e.state != "empty" {
 		for _, b := range u.Blobs {
